@@ -5,3 +5,4 @@ import EmdProps.C08
 import EmdProps.C09
 import EmdProps.C10
 import EmdProps.C11
+import EmdProps.C05
